@@ -49,7 +49,7 @@ def generate(rng, tier="quick"):
                 v = rng.pick(seams.FLAGSET)
             vals.append(v)
             mask.append(1 if masked and rng.chance(0.35) else 0)
-        vectors.append({"dtype": dtype, "values": vals, "mask": mask if masked else None, "under": rng.pick((4, 4, 3, 9, 1, 0, 255))})
+        vectors.append({"dtype": dtype, "values": vals, "mask": mask if masked else None, "under": rng.pick((4, 4, 3, 9, 1, 0, 255)), "hard": masked and rng.chance(0.2)})
     deliveries = []
     for _ in range(rng.randint(2, 5)):
         seq = list(range(k))
@@ -70,7 +70,7 @@ def generate(rng, tier="quick"):
         d = {"via": via, "seq": seq, "groups": groups, "packages": [rng.pick(("qartod", "qartod", "argo", "axds")) for _ in seq]}
         if via == "store":
             # stream ids / test names per message; some pairs differ only in characters that CF-safe naming replaces
-            d["sids"] = [rng.pick(("v", "v", "v.1", "v_1", "v 1")) for _ in seq]
+            d["sids"] = [rng.pick(("v", "v", "v.1", "v_1", "v 1", 0, 7)) for _ in seq]  # (a frame built from a matrix has integer column labels)
             d["tests"] = [rng.pick((f"t{j}", f"t{j}", "t.x", "t_x", "t-x")) for j in range(len(seq))]
         deliveries.append(d)
     return {"format": 1, "property": PROP, "env": wl.gen_env(rng), "n": n, "vectors": vectors, "deliveries": deliveries}
@@ -84,7 +84,10 @@ def build_vector(v):
     mask = np.array(v["mask"], dtype=bool)
     data = data.copy()
     data[mask] = v.get("under", 4)  # adversarial byte beneath the mask
-    return np.ma.MaskedArray(data, mask=mask)
+    out = np.ma.MaskedArray(data, mask=mask)
+    if v.get("hard"):
+        out.harden_mask()  # a caller may protect its masked entries against being overwritten
+    return out
 
 
 def model_join(vectors, n):
